@@ -323,3 +323,90 @@ def special_lookups(run):
             prove(label, got == want, clause='location lands on line %r [got %r]\n%s' % (want, got, src), path=path)
             core.RUN.concretise = None
     core.explore(lambda: None, lambda p, out: go(p))
+
+
+DOTTED_TREE = {
+    'a/__init__.py': 'xa = 1\n',
+    'a/b/__init__.py': 'yb = 2\n',
+    'a/b/c.py': 'zc = 3\n',
+    'a/b/c2.py': 'zc2 = 4\n',
+    'a/d.py': 'wd = 5\n',
+    'a/e/__init__.py': 'ue = 6\n',
+    'a/e/f.py': 'vf = 7\n',
+}
+DOTTED_CASES = [
+    # (import lines, expression before the cursor, names that must be proposed, names that must not, file go-to-definition of the expression lands in)
+    ('import a.b.c', 'a.', ['xa', 'b'], ['c', 'b.c', 'd'], 'a/__init__.py'),
+    ('import a.b.c', 'a.b.', ['yb', 'c'], ['c2', 'zc'], 'a/b/__init__.py'),
+    ('import a.b.c', 'a.b.c.', ['zc'], ['yb'], 'a/b/c.py'),
+    ('import a.b.c\nimport a.d', 'a.', ['xa', 'b', 'd'], ['c'], 'a/__init__.py'),
+    ('import a.b.c\nimport a.b.c2\nimport a.e.f', 'a.b.', ['yb', 'c', 'c2'], ['f'], 'a/b/__init__.py'),
+    ('import a.b.c\nimport a.b.c2\nimport a.e.f', 'a.e.', ['ue', 'f'], ['c'], 'a/e/__init__.py'),
+    ('import a.b.c\nimport a.b.c2\nimport a.e.f', 'a.', ['xa', 'b', 'e'], ['f', 'c', 'e.f', 'b.c'], 'a/__init__.py'),
+    ('import a.b', 'a.b.', ['yb'], ['zc'], 'a/b/__init__.py'),
+    ('import a.b.c as leaf', 'leaf.', ['zc'], ['yb', 'xa'], 'a/b/c.py'),
+    ('from a.b import c', 'c.', ['zc'], ['yb'], 'a/b/c.py'),
+    ('from a import b', 'b.', ['yb'], ['xa'], 'a/b/__init__.py'),
+]
+
+
+@harness(['C07', 'C12', 'C06'], 'supp.name.ImportedName.resolve [dotted imports: what `import a.b.c` makes reachable]',
+         bounded='one package tree (a, a.b, a.b.c, a.b.c2, a.d, a.e, a.e.f) x 11 import forms / expressions')
+def dotted_imports(run):
+    """BOUNDED: after `import a.b.c` the name a is the package a with its submodule b reachable, a.b is the package a/b (the file importlib
+    loads for that name) with c reachable, and so on: completion proposes the package's own names and exactly the submodules the imports
+    make reachable (identifiers, no dotted names), and go-to-definition on each prefix lands in the file importlib loads for it.  Not counted
+    as proved."""
+    import importlib.util
+    import os
+    import shutil
+    import sys
+    import tempfile
+    import supp.assistant as A
+    import supp.project as Pj
+
+    def go(path):
+        top = tempfile.mkdtemp(prefix='supp-c07-')
+        try:
+            for fn, body in DOTTED_TREE.items():
+                os.makedirs(os.path.dirname(os.path.join(top, fn)), exist_ok=True)
+                with open(os.path.join(top, fn), 'w') as f:
+                    f.write(body)
+            fname = os.path.join(top, 'main.py')
+            for imports, expr, must, must_not, want_file in DOTTED_CASES:
+                label = '%s | %s' % (imports.replace('\n', '; '), expr)
+                src = imports + '\n' + expr + '\n'
+                ln = imports.count('\n') + 2
+                try:
+                    got = A.assist(Pj.Project([top]), src, (ln, len(expr)), fname)[1]
+                except Exception as e:
+                    got = ['<raised %s>' % type(e).__name__]
+                missing = [m for m in must if m not in got]
+                extra = [m for m in must_not if m in got]
+                nonident = [g for g in got if not g.isidentifier()]
+                prove('%s:proposals' % label, not missing and not extra and not nonident,
+                      clause='proposals after %r [missing %r, must not be there %r, not identifiers %r; got %r]' % (label, missing, extra, nonident, got[:12]), path=path)
+                # go-to-definition of the expression itself (cursor at its end, before the dot)
+                src2 = imports + '\n' + expr[:-1] + '\n'
+                try:
+                    loc = A.location(Pj.Project([top]), src2, (ln, len(expr) - 1), fname)
+                    # the chain of definitions: the import statement in the edited file, then what it resolves to
+                    files = [os.path.relpath(l['file'], top) for l in loc if isinstance(l, dict) and l.get('file', '').startswith(top)][-1:]
+                except Exception as e:
+                    files = ['<raised %s>' % type(e).__name__]
+                modname = want_file[:-3].replace('/__init__', '').replace('/', '.')
+                sys.path.insert(0, top)
+                try:
+                    spec = importlib.util.find_spec(modname)
+                    origin = os.path.relpath(spec.origin, top) if spec else None
+                except Exception:
+                    origin = None
+                finally:
+                    sys.path.remove(top)
+                    for k in [k for k in sys.modules if k == 'a' or k.startswith('a.')]:
+                        del sys.modules[k]
+                prove('%s:definition-is-the-file-importlib-loads' % label, files == [origin] and origin == want_file,
+                      clause='location(%s) lands in %r; importlib loads %r for %s' % (expr[:-1], files, origin, modname), path=path)
+        finally:
+            shutil.rmtree(top, ignore_errors=True)
+    core.explore(lambda: None, lambda p, out: go(p))
